@@ -2,13 +2,15 @@ import ArrowModel.C16.Invariant
 namespace ArrowModel.C16
 
 theorem claimed_le_pool {s : State} {p : List Nat} (h : InvP s p) {r : Nat} {reg : Region}
-    (hr : s.regions[r]? = some reg) : reg.claimed.getD 0 ≤ s.pool := by
-  rw [h.pool_eq]; exact sumMap_ge (fun reg => reg.claimed.getD 0) s.regions r reg hr
+    (hr : s.regions[r]? = some reg) : reg.claimed.getD 0 ≤ s.pool reg.claimPool := by
+  rw [h.pool_eq]
+  have := sumMap_ge (Region.claimIn reg.claimPool) s.regions r reg hr
+  simpa [Region.claimIn] using this
 
 /-- only the bytes of a region change -/
 theorem inv_setBytes {s : State} {p : List Nat} (h : InvP s p) {r : Nat} {reg : Region}
     (hr : s.regions[r]? = some reg) (bs : List Nat) : InvP (setRegion s r { reg with bytes := bs }) p :=
-  inv_updRegion (reg' := { reg with bytes := bs }) h hr rfl rfl rfl rfl rfl rfl rfl rfl
+  inv_updRegion (reg' := { reg with bytes := bs }) h hr rfl rfl rfl (fun _ => rfl) rfl rfl rfl rfl
     (h.reg_ok r reg hr).rel_claim (h.reg_ok r reg hr).claim_cap
 
 theorem inv_opAllocVec (s : State) (d len cap t seed : Nat) (h : Inv s) : Inv (opAllocVec s d len cap t seed).1 := by
@@ -111,11 +113,16 @@ theorem inv_opExtend (s : State) (i n val : Nat) (h : Inv s) : Inv (opExtend s i
       rw [hr] at hr0; cases hr0
       have hle := claimed_le_pool h hr
       let reg' : Region := { reg with bytes := reg.bytes ++ List.replicate n (val % 256), cap := grownCap reg.cap (l + n), claimed := reg.claimed.map (fun _ => grownCap reg.cap (l + n)) }
-      let s1 : State := { setRegion s r reg' with pool := s.pool - reg.claimed.getD 0 + (reg.claimed.map (fun _ => grownCap reg.cap (l + n))).getD 0 }
+      let s1 : State := { setRegion s r reg' with pool := poolAdjust s.pool reg.claimPool (reg.claimed.getD 0) ((reg.claimed.map (fun _ => grownCap reg.cap (l + n))).getD 0) }
       have h1 : Inv s1 := by
         refine inv_updRegion (reg' := reg') h hr rfl rfl rfl ?_ rfl rfl rfl rfl ?_ ?_
-        · show s.pool - reg.claimed.getD 0 + (reg.claimed.map (fun _ => grownCap reg.cap (l + n))).getD 0 + reg.claimed.getD 0 = s.pool + (reg.claimed.map (fun _ => grownCap reg.cap (l + n))).getD 0
-          omega
+        · intro q
+          show poolAdjust s.pool reg.claimPool (reg.claimed.getD 0) ((reg.claimed.map (fun _ => grownCap reg.cap (l + n))).getD 0) q + reg.claimIn q = s.pool q + reg'.claimIn q
+          unfold poolAdjust Region.claimIn
+          by_cases e : q = reg.claimPool
+          · subst e; simp [reg']; omega
+          · have e2 : ¬ (reg.claimPool = q) := fun x => e x.symm
+            simp [e, e2, reg']
         · intro hx; simp [reg', hnrel] at hx
         · intro c hc
           show c = grownCap reg.cap (l + n)
@@ -132,7 +139,7 @@ theorem inv_opExtend (s : State) (i n val : Nat) (h : Inv s) : Inv (opExtend s i
     · exact h
   · exact h
 
-theorem inv_opClaim (s : State) (i : Nat) (h : Inv s) : Inv (opClaim s i).1 := by
+theorem inv_opClaim (s : State) (i p : Nat) (h : Inv s) : Inv (opClaim s i p).1 := by
   unfold opClaim; split
   · rename_i r hb
     split
@@ -144,9 +151,19 @@ theorem inv_opClaim (s : State) (i : Nat) (h : Inv s) : Inv (opClaim s i).1 := b
         obtain ⟨reg0, hr0, hpos, hnrel⟩ := live_of_slot h hi hb
         rw [hr] at hr0; cases hr0
         have hle := claimed_le_pool h hr
-        refine inv_updRegion (reg' := { reg with claimed := some reg.cap }) h hr rfl rfl rfl ?_ rfl rfl rfl rfl ?_ ?_
-        · show s.pool - reg.claimed.getD 0 + reg.cap + reg.claimed.getD 0 = s.pool + _
-          simp; omega
+        refine inv_updRegion (reg' := { reg with claimed := some reg.cap, claimPool := p }) h hr rfl rfl rfl ?_ rfl rfl rfl rfl ?_ ?_
+        · intro q
+          show poolAdjust (poolAdjust s.pool reg.claimPool (reg.claimed.getD 0) 0) p 0 reg.cap q + reg.claimIn q = s.pool q + _
+          unfold poolAdjust Region.claimIn
+          by_cases e : q = reg.claimPool <;> by_cases e3 : q = p
+          · subst e; subst e3; simp; omega
+          · subst e; have : ¬ (p = reg.claimPool) := fun x => e3 x.symm
+            simp [e3, this]; omega
+          · subst e3; have : ¬ (reg.claimPool = q) := fun x => e x.symm
+            simp [e, this]
+          · have e2 : ¬ (reg.claimPool = q) := fun x => e x.symm
+            have e4 : ¬ (p = q) := fun x => e3 x.symm
+            simp [e, e2, e3, e4]
         · intro hx; simp [hnrel] at hx
         · intro c hc; simp at hc; exact hc.symm
     · exact h
@@ -322,7 +339,7 @@ theorem step_inv (s : State) (op : Op) (h : Inv s) : Inv (step s op).1 := by
   | write i pos val => exact inv_opWrite s i pos val h
   | extend i n val => exact inv_opExtend s i n val h
   | truncate i len => exact inv_opTruncate s i len h
-  | claim i => exact inv_opClaim s i h
+  | claim i p => exact inv_opClaim s i p h
   | wrap i d off len => exact inv_opWrap s i d off len h
   | bitAssign i j op boff blen => exact inv_opBitAssign s i j op boff blen h
   | exportFfi srcs d => exact inv_opExportFfi s srcs d h
@@ -330,7 +347,7 @@ theorem step_inv (s : State) (op : Op) (h : Inv s) : Inv (step s op).1 := by
   | unaryMut i delta => exact inv_opUnaryMut s i delta h
 
 theorem inv_init (n : Nat) : Inv (init n) := by
-  refine ⟨?_, ?_, ?_, ?_, rfl, ?_⟩
+  refine ⟨?_, ?_, ?_, ?_, fun _ => rfl, ?_⟩
   · intro r
     have : ∀ m, sumMap (Slot.refs r) (List.replicate m Slot.empty) = 0 := by
       intro m; induction m with
